@@ -7,6 +7,9 @@ package main
 //                                             with the Go function behind it
 //   sandbox probe  <cfg> <name>               the whole battery of call shapes for one name
 //   sandbox script <cfg> <mode> <script>      one script      (name, script: dot-separated bytes)
+//   sandbox tuples <cfg> <name> <lo>-<hi>     every argument tuple of length lo…hi over a value pool
+//                                             (canaries, hash, record, array, raw, int, symbol, nil),
+//                                             direct / alias / apply; bare and std only
 //
 // cfg  = bare (NewZlispSandbox) | std (+ StandardSetup) | cli (the command line tool -sandbox)
 // mode = eval (bare, std: EvalString) | repl | cmd | file (cli: lines on stdin / -c / script file)
@@ -246,6 +249,7 @@ func sbChildEnv() []string {
 }
 
 type sbResult struct {
+	tmpl    string // the script with $D for the canary directory (stable across runs), if any
 	script  string
 	effects []string
 	note    string // "" | crash | timeout
@@ -327,7 +331,7 @@ func sbRunEval(d *sbDir, cfg string, scripts []string) []sbResult {
 // caller of `zyh exec` (lib/vcommon.exec_impl) then re-runs the op alone and reports
 // HOSTDEATH for it — checks/C08.py re-runs such an op in isolated mode (`probei`, `evali`)
 // to name the script.
-func sbEvalHere(d *sbDir, cfg string, scripts []string) []sbResult {
+func sbEvalHere(d *sbDir, cfg string, scripts []string, prelude string) []sbResult {
 	res := make([]sbResult, len(scripts))
 	oldwd, _ := os.Getwd()
 	os.Chdir(d.c)
@@ -345,6 +349,13 @@ func sbEvalHere(d *sbDir, cfg string, scripts []string) []sbResult {
 		os.Unsetenv(sbEnvNew)
 		if env == nil {
 			env = sbMkEnv(cfg)
+			if prelude != "" {
+				func() {
+					defer func() { recover() }()
+					env.EvalString(prelude + "\n")
+					env.Clear()
+				}()
+			}
 		}
 		outf.Truncate(0)
 		outf.Seek(0, 0)
@@ -491,7 +502,11 @@ func sbLog(format string, a ...interface{}) {
 func sbAnswer(rs []sbResult) string {
 	for _, r := range rs {
 		if len(r.effects) > 0 {
-			return "EFFECT " + strings.Join(r.effects, ",") + " " + bytesToCodes([]byte(r.script))
+			sc := r.script
+			if r.tmpl != "" {
+				sc = r.tmpl
+			}
+			return "EFFECT " + strings.Join(r.effects, ",") + " " + bytesToCodes([]byte(sc))
 		}
 		if strings.HasPrefix(r.note, "harness-child-failed") {
 			return "HARNESS " + r.note
@@ -504,6 +519,92 @@ func sbAnswer(rs []sbResult) string {
 		}
 	}
 	return "clean"
+}
+
+// ---------------------------------------------------------------- argument tuples
+
+// sbPoolExprs: the value pool of the tuple enumeration ($D = canary directory). The first four
+// are the canaries (existing file, file that must not appear, shell command, environment
+// variable name); the others are plain values of every kind a builtin switches on. zqH / zqR
+// are bound by sbTuplePrelude.
+var sbPoolExprs = []string{
+	`"$D/secret.txt"`, `"$D/created.txt"`, `"expr 77310000 + 1; touch $D/cmd-ran.txt"`, `"` + sbEnvName + `"`,
+	`zqH`, `zqR`, `[1 2]`, `(raw "zq")`, `0`, `(quote zqreq)`, `nil`,
+}
+
+const sbPoolCanaries = 4
+
+func sbTuplePrelude(cfg string) string {
+	if cfg == "bare" {
+		return `(def zqH (hash a: 1 b: "x")) (def zqR (hash Name: "zq" inner: (hash k: 2)))`
+	}
+	return `(def zqH (hash a: 1 b: "x")) (defmap zqrec) (def zqR (zqrec a: 1 b: "x"))`
+}
+
+// sbTupleScripts: every argument tuple of length lo…hi over the pool — all of them up to
+// length 2, from length 3 on those with a canary in at least one position (so a canary
+// stands in EVERY position next to every combination of other values) — as a direct call,
+// and up to length 3 also through an alias and through apply.
+func sbTupleScripts(name string, lo, hi int) []string {
+	var out []string
+	var rec func(k int, idx []int)
+	emit := func(idx []int) {
+		hasCanary := false
+		var args []string
+		for _, i := range idx {
+			if i < sbPoolCanaries {
+				hasCanary = true
+			}
+			args = append(args, sbPoolExprs[i])
+		}
+		if len(idx) >= 3 && !hasCanary {
+			return
+		}
+		a := strings.Join(args, " ")
+		if len(idx) == 0 {
+			out = append(out, "("+name+")")
+			return
+		}
+		out = append(out, "("+name+" "+a+")")
+		if len(idx) <= 3 {
+			out = append(out, "(def zqal "+name+") (zqal "+a+")", "(apply "+name+" ["+a+"])")
+		}
+	}
+	rec = func(k int, idx []int) {
+		if k == 0 {
+			emit(idx)
+			return
+		}
+		for i := range sbPoolExprs {
+			rec(k-1, append(idx, i))
+		}
+	}
+	for n := lo; n <= hi; n++ {
+		rec(n, nil)
+	}
+	return out
+}
+
+func sbTuplesOp(cfg, name string, lo, hi int) string {
+	if cfg == "cli" || lo < 0 || hi > 4 || lo > hi {
+		return "bad-op"
+	}
+	d, err := sbNewDir()
+	if err != nil {
+		return "HARNESS " + err.Error()
+	}
+	defer os.RemoveAll(d.root)
+	tmpls := sbTupleScripts(name, lo, hi)
+	scripts := make([]string, len(tmpls))
+	for i, t := range tmpls {
+		scripts[i] = strings.ReplaceAll(t, "$D", d.c)
+	}
+	pre := sbTuplePrelude(cfg)
+	rs := sbEvalHere(d, cfg, scripts, strings.ReplaceAll(pre, "$D", d.c))
+	for i := range rs {
+		rs[i].tmpl = pre + " " + tmpls[i]
+	}
+	return sbAnswer(rs)
 }
 
 // ---------------------------------------------------------------- exec
@@ -545,7 +646,7 @@ func sbExec(toks []string) string {
 		batt := sbBattery(d, cfg, string(nb))
 		if cfg != "cli" {
 			if toks[0] == "probe" {
-				return sbAnswer(sbEvalHere(d, cfg, batt))
+				return sbAnswer(sbEvalHere(d, cfg, batt, ""))
 			}
 			return sbAnswer(sbRunEval(d, cfg, batt))
 		}
@@ -579,6 +680,22 @@ func sbExec(toks []string) string {
 		}
 		_ = n
 		return sbAnswer(rs)
+	case "tuples":
+		// tuples <cfg> <name> <lo>-<hi>
+		if len(toks) != 4 {
+			return "bad-op"
+		}
+		nb, ok := codesToBytes(toks[2])
+		lh := strings.Split(toks[3], "-")
+		if !ok || len(lh) != 2 {
+			return "bad-op"
+		}
+		lo, e1 := strconv.Atoi(lh[0])
+		hi, e2 := strconv.Atoi(lh[1])
+		if e1 != nil || e2 != nil {
+			return "bad-op"
+		}
+		return sbTuplesOp(cfg, string(nb), lo, hi)
 	case "sweep":
 		// sweep cli <name>,<name>,…: the batteries of many names in ONE REPL session
 		if len(toks) != 3 || cfg != "cli" {
@@ -639,7 +756,7 @@ func sbExec(toks []string) string {
 		if cfg != "cli" {
 			switch toks[2] {
 			case "eval":
-				return sbAnswer(sbEvalHere(d, cfg, []string{script}))
+				return sbAnswer(sbEvalHere(d, cfg, []string{script}, ""))
 			case "evali":
 				return sbAnswer(sbRunEval(d, cfg, []string{script}))
 			}
